@@ -65,6 +65,14 @@ Fixpoint set_last {A : Type} (l : list A) (y : A) : list A :=
 (* truth value of a list *)
 Definition nonempty {A : Type} (l : list A) : bool := match l with [] => false | _ => true end.
 
+(* sep.join(strings) *)
+Fixpoint join_with (sep : string) (l : list string) : string :=
+  match l with
+  | [] => EmptyString
+  | [a] => a
+  | a :: r => String.append a (String.append sep (join_with sep r))
+  end.
+
 Section Objects.
 Variable L : Type.
 Notation elem := (elem L).
